@@ -3,7 +3,7 @@ import itertools
 import math
 from fractions import Fraction as F
 
-import numpy as np
+from ..core import NP as np
 
 from .. import core
 from ..core import q, qs, guarded, same, unq
